@@ -34,7 +34,7 @@ func main() {
 	)
 	if run.ReplayCase() < 0 { // a replayed single case is judged on its own
 		run.Mandatory(
-			"builder:AuthResponseURL", "builder:AuthResponseFormPost", "builder:form_post-after-write-fault", "builder:AuthRequestError", "builder:TryErrorRedirect",
+			"builder:AuthResponseURL", "builder:AuthResponseFormPost", "builder:form_post-after-write-fault", "e2e:request-object:with-state", "e2e:request-object:without-state", "builder:AuthRequestError", "builder:TryErrorRedirect",
 			"e2e:success:provider:query", "e2e:success:provider:fragment", "e2e:success:provider:form_post",
 			"e2e:success:legacy:query", "e2e:success:legacy:fragment", "e2e:success:legacy:form_post",
 			"e2e:error-redirect:provider", "e2e:error-redirect:legacy",
